@@ -312,3 +312,162 @@ def slice_str_contains(exe, path, callee, args, dst_ty):
     if not (isinstance(arr, Agg) and arr.name == 'array'):
         raise MirUnsupported('contains on %r' % (arr,))
     return [('ret', path, z3.Or([str_eq(exe, path, arr.fields[i], x) for i in sorted(arr.fields)]))]
+
+
+parsed_f64 = z3.Function('parsed_f64', z3.IntSort(), z3.IntSort(), z3.RealSort())
+
+
+@contract(r'core::str::<impl str>::parse::<f64>$')
+def str_parse_f64(exe, path, callee, args, dst_ty):
+    """dec2flt is trusted: any f64 or Err (sound for panic freedom; the value is tied to the slice by an event)."""
+    okp, errp = path.clone(), path
+    sl = args[0]
+    if isinstance(sl, Opaque) and isinstance(sl.info, dict) and 'start' in sl.info:
+        v = parsed_f64(sl.info['start'], sl.info['end'])        # a function of the slice: same slice, same value
+    else:
+        v = z3.Real(exe.fresh_name('f64'))
+    okp.event('parse_f64', args[0], v)
+    errp.event('parse_f64', args[0], None)
+    return [('ret', okp, ok(v)), ('ret', errp, err(Opaque('ParseFloatError')))]
+
+
+def _checked(op):
+    def f(exe, path, callee, args, dst_ty):
+        ty = re.search(r'<impl (\w+)>', callee).group(1)
+        from .core import INT_RANGE
+        lo, hi = INT_RANGE[ty]
+        a, b = args
+        r = {'add': a + b, 'sub': a - b, 'mul': a * b}[op]
+        inr = z3.And(r >= lo, r <= hi)
+        outs = []
+        if exe.feasible(path, [inr]):
+            q = path.clone()
+            q.pc.append(inr)
+            outs.append(('ret', q, some(r)))
+        if exe.feasible(path, [z3.Not(inr)]):
+            q = path.clone()
+            q.pc.append(z3.Not(inr))
+            outs.append(('ret', q, NONE))
+        return outs
+    return f
+
+
+for _op in ('add', 'sub', 'mul'):
+    TABLE.append((r'core::num::<impl \w+>::checked_%s$' % _op, _checked(_op)))
+
+
+# ------------------------------------------------------------------------------------------------ closures
+def closure_fn(exe, clo):
+    if isinstance(clo, Ref):
+        raise MirUnsupported('closure by reference')
+    if not isinstance(clo, Agg) or not clo.name.startswith('{closure@'):
+        raise MirUnsupported('not a closure value: %r' % (clo,))
+    hits = [n for n, h in exe.m.headers.items() if h.startswith('fn ') and
+            re.search(r'\(_1: &?(mut )?' + re.escape(clo.name), h)]
+    if len(hits) != 1:
+        raise MirUnsupported('closure function lookup %s: %d hits' % (clo.name, len(hits)))
+    by_ref = bool(re.search(r'\(_1: &', exe.m.headers[hits[0]]))
+    return hits[0], by_ref
+
+
+def call_closure(exe, path, clo, extra_args, then=None, data=None):
+    """-> outcome ('running', path): the closure's MIR is executed; `then(exe, path, ret, data)` post-processes"""
+    name, by_ref = closure_fn(exe, clo)
+    first = clo
+    if by_ref:
+        key = ('clo', path.new_fid())
+        path.store[key] = clo
+        first = Ref(key)
+    return exe.call_local(path, name, [first] + list(extra_args), then, data)
+
+
+@contract(r'^(std::option::)?Option::<.*>::and_then::<')
+def option_and_then(exe, path, callee, args, dst_ty):
+    v, clo = args
+    yes, no = fork_variant(exe, path, v, 'Some')
+    outs = []
+    if yes is not None:
+        outs.append(call_closure(exe, yes, clo, [payload(exe, v, 'Some')]))
+    if no is not None:
+        outs.append(('ret', no, NONE))
+    return outs
+
+
+@contract(r'^(std::option::)?Option::<.*>::map::<')
+def option_map(exe, path, callee, args, dst_ty):
+    v, clo = args
+    yes, no = fork_variant(exe, path, v, 'Some')
+    outs = []
+    if yes is not None:
+        outs.append(call_closure(exe, yes, clo, [payload(exe, v, 'Some')], lambda exe, p, r, d: [('ret', p, some(r))]))
+    if no is not None:
+        outs.append(('ret', no, NONE))
+    return outs
+
+
+@contract(r'^(std::option::)?Option::<.*>::filter::<')
+def option_filter(exe, path, callee, args, dst_ty):
+    v, clo = args
+    yes, no = fork_variant(exe, path, v, 'Some')
+    outs = []
+    if yes is not None:
+        key = ('tmp', yes.new_fid())
+        yes.store[key] = payload(exe, v, 'Some')
+
+        def then(exe, p, keep, val):
+            keep = z3.simplify(keep)
+            res = []
+            if not z3.is_false(keep) and exe.feasible(p, [keep]):
+                q = p.clone()
+                q.pc.append(keep)
+                res.append(('ret', q, val))
+            if not z3.is_true(keep) and exe.feasible(p, [z3.Not(keep)]):
+                q = p.clone()
+                q.pc.append(z3.Not(keep))
+                res.append(('ret', q, NONE))
+            return res
+        outs.append(call_closure(exe, yes, clo, [Ref(key)], then, v))
+    if no is not None:
+        outs.append(('ret', no, NONE))
+    return outs
+
+
+# ------------------------------------------------------------------------------------------------ char classes / Vec
+WHITE_SPACE = [(9, 13), (32, 32), (0x85, 0x85), (0xA0, 0xA0), (0x1680, 0x1680), (0x2000, 0x200A), (0x2028, 0x2029),
+               (0x202F, 0x202F), (0x205F, 0x205F), (0x3000, 0x3000)]
+
+
+@contract(r'char::methods::<impl char>::is_whitespace$|^char::is_whitespace$')
+def char_is_whitespace(exe, path, callee, args, dst_ty):
+    c = args[0]
+    return [('ret', path, z3.Or([z3.And(c >= a, c <= b) for a, b in WHITE_SPACE]))]
+
+
+@contract(r'^Vec::<.*>::new$')
+def vec_new(exe, path, callee, args, dst_ty):
+    return [('ret', path, Agg('Vec', None, {}))]
+
+
+@contract(r'^Vec::<.*>::push$')
+def vec_push(exe, path, callee, args, dst_ty):
+    ref, x = args
+    v = exe.load(path, ref)
+    if not (isinstance(v, Agg) and v.name == 'Vec'):
+        raise MirUnsupported('Vec::push on %r' % (v,))
+    exe.store_at(path, ref.key, ref.proj, v.with_field(len(v.fields), x))
+    return [('ret', path, UNIT)]
+
+
+@contract(r'^Vec::<.*>::pop$')
+def vec_pop(exe, path, callee, args, dst_ty):
+    ref = args[0]
+    v = exe.load(path, ref)
+    if not (isinstance(v, Agg) and v.name == 'Vec'):
+        raise MirUnsupported('Vec::pop on %r' % (v,))
+    n = len(v.fields)
+    if n == 0:
+        return [('ret', path, NONE)]
+    f = dict(v.fields)
+    x = f.pop(n - 1)
+    exe.store_at(path, ref.key, ref.proj, Agg('Vec', None, f))
+    return [('ret', path, some(x))]
